@@ -169,6 +169,17 @@ def replay(prop, path):
     wd = os.path.join(WORK, f"{prop}-replay")
     shutil.rmtree(wd, ignore_errors=True)
     os.makedirs(wd)
+    if path.endswith(".cfgmsgs"):
+        out, n, fs, wall = run_cfg(binp, path, wd)
+        nmsg = sum(1 for l in open(path) if l.startswith('"CFG '))
+        fs = [f for f in fs if f["l"] <= nmsg]          # the validator matrix is appended to every run
+        for f in fs:
+            print("replay finding:", json.dumps(f)[:400])
+        if fs:
+            print(f"VIOLATION property={prop} replay={path}")
+            return 1
+        print(f"replay of {path}: property {prop} holds on the current tree")
+        return 0
     src = os.path.join(wd, "in.ndjson")
     with open(src, "w") as f:
         for ln in open(path):
@@ -372,6 +383,7 @@ PLANS = {
     "C17": plan(["flow_q"], ["flow_t"], [], [], [("chaos", 6, 60)], [("chaos", 60, 70)]),
     "C18": plan(["ibc_q"], ["ibc_t"], [], [], [], [], scen=["C18"]),
     "C19": plan(["flow_q"], ["flow_t"], ["flow_q"], ["flow_t"], [("chaos", 8, 60)], [("chaos", 100, 70)]),
+    "C14": plan(["gate_q"], ["gate_t"], [], [], [("admin", 8, 60)], [("admin", 100, 70)]),
     "C15": plan(["flow_q", "flow_treasury_q"], ["flow_t", "flow_treasury_t"], ["flow_q", "flow_treasury_q"], ["flow_t", "flow_treasury_t"], W_Q, W_T),
 }
 LEVEL = "model_checking"
@@ -570,7 +582,56 @@ def hook_c18(binp, tier, seed, wd):
     return extra, viols
 
 
-HOOKS = {"C04": hook_c04, "C19": hook_c19, "C09": hook_c09, "C17": hook_c17, "C18": hook_c18}
+def cfg_messages(tier, wd):
+    """TLC enumerates the abstract configuration messages of ConfigRules.tla (cached: a pure function of the spec)"""
+    cfg = os.path.join(MC_DIR, f"ConfigMC_{'q' if tier == 'quick' else 't'}.cfg")
+    os.makedirs(CACHE, exist_ok=True)
+    path = os.path.join(CACHE, f"config-{tier}-{spec_hash(cfg)}.cfgmsgs")
+    if not (os.path.exists(path) and os.path.getsize(path) > 0):
+        rc, out, wall = tlc(os.path.join(SPEC, "ConfigMC.tla"), cfg, wd, workers=1, timeout=1800)
+        if "No error has been found" not in out:
+            raise ToolError("ConfigMC failed\n" + out[-1500:])
+        with open(path, "w") as f:
+            f.write(out)
+        log(f"[config] TLC enumerated the configuration message space in {wall:.1f}s")
+    return path
+
+
+def run_cfg(binp, msgs, wd):
+    out = os.path.join(wd, "cfg.ndjson")
+    mwh(binp, ["cfgexec", msgs, out])
+    n, fs, wall = small_trace_check("ConfigTrace", out, wd, timeout=1800)
+    return out, n, fs, wall
+
+
+def hook_c14(binp, tier, seed, wd):
+    extra, viols = {}, []
+    msgs = cfg_messages(tier, wd)
+    nm = int(subprocess.run(["grep", "-c", '^"CFG ', msgs], stdout=subprocess.PIPE, text=True).stdout.strip() or 0)
+    out, n, fs, wall = run_cfg(binp, msgs, wd)
+    stats = {}
+    for ln in open(out):
+        r = json.loads(ln)
+        k = f"{r['kind']}:{'accepted' if r['ok'] else 'refused'}"
+        stats[k] = stats.get(k, 0) + 1
+    extra["config_messages_enumerated_by_tlc"] = nm
+    extra["config_records"] = n
+    extra["config_outcomes"] = stats
+    extra["config_findings"] = len(fs)
+    log(f"[config] {nm} TLC-enumerated messages + validator matrix executed on the real contract ({stats}); ConfigTrace: {len(fs)} findings ({wall:.1f}s)")
+    if fs:
+        # replay file = the abstract messages of the offending records
+        lines = [l for l in open(msgs) if l.startswith('"CFG ')]
+        bad_idx = sorted({f["l"] for f in fs if f["l"] <= len(lines)})
+        rp = os.path.join(wd, "offending.cfgmsgs")
+        with open(rp, "w") as f:
+            for i in bad_idx[:20]:
+                f.write(lines[i - 1])
+        viols.append(("config", rp, fs[0]))
+    return extra, viols
+
+
+HOOKS = {"C04": hook_c04, "C19": hook_c19, "C09": hook_c09, "C17": hook_c17, "C18": hook_c18, "C14": hook_c14}
 
 
 def run_property(prop, tier, seed):
